@@ -460,8 +460,10 @@ class LowerToIRVisitor(Visitor.DefaultVisitor):
 
                 assert isinstance(value, LinearIR.Value)
 
+                # The result is the complete vector with the selected
+                # components replaced, not just the components written
                 si = LinearIR.ShuffleInstruction(
-                    ctx.AdaptType(expr.GetType()),
+                    value.Type,
                     value,
                     ctx.AssignmentValue,
                     indices,
